@@ -5,7 +5,7 @@
     (step.c scanning primitives), over Map/MapModel.v (C10) and Xlat/Step.v (C02). *)
 From Coq Require Import NArith ZArith List Bool Lia.
 From KdV Require Import Base.Wrap64 Map.MapModel Map.MapSpec Xlat.Step Xlat.ArchSpec
-  Sys.LayoutModel Sys.LayoutSpec Sys.LayoutProofs Sys.LayoutArchModel Sys.LayoutArchProofs Sys.ScanModel Sys.ScanProofs Sys.LinuxX86Model Sys.LinuxX86Proofs Xlat.WalkProofs Xlat.FmtX86.
+  Sys.LayoutModel Sys.LayoutSpec Sys.LayoutProofs Sys.LayoutArchModel Sys.LayoutArchProofs Sys.ScanModel Sys.ScanProofs Sys.LinuxX86Model Sys.LinuxX86Proofs Sys.LinuxX86Region Sys.LinuxRvA64Model Sys.LinuxRvA64Proofs Xlat.WalkProofs Xlat.FmtX86 Xlat.FmtA64.
 Import ListNotations.
 Local Open Scope N_scope.
 
@@ -119,17 +119,21 @@ Print Assumptions C08_linear_directmap_layout_partial.
 
 (** * Scanning primitives
 
-    Partial: proved are (a) soundness of [lowest_mapped] for every PTE format
-    whose next-step function simulates its decoder (C02's [sim]; instance:
-    x86-64): an address it returns lies between the page-aligned start and the
-    limit, shares the sign-extension bits of the start, is mapped by the
-    architectural walk of the table tree, and the returned step holds its
-    translation; (b) that a successful [highest_linear] tested the offset at the
-    first mapped address.  That the returned address is the *least* mapped one,
-    and the specifications of [highest_mapped] / [lowest_unmapped]
-    (Sys/ScanSpec.v) are evaluated on the implementation and on the model by the
-    correspondence check, not proved. *)
-Theorem C08_scan_lowest_mapped_sound_partial :
+    For every PTE format whose next-step function simulates its architectural
+    decoder (C02's [sim], proved there for eleven formats; huge-page
+    directories, i.e. Linux ppc64, excluded), over the architectural walk
+    [arch_levels] of the table tree: "mapped" = the walk succeeds, "unmapped" =
+    the walk reports not-present.  The scan covers the addresses the root table
+    spans (those that agree with the start above the translated bits).  The
+    statements are about the statuses [OK] and [NOTPRESENT]; any other status
+    (a read error, an invalid entry) is passed on by the C code and says
+    nothing about the tree. *)
+
+(** [lowest_mapped] answers the least mapped address of the range: the answer
+    is mapped (and the returned step holds its translation), every address
+    between the page-aligned start and the answer is unmapped; and when it
+    answers "not present", no address of the range is mapped *)
+Theorem C08_scan_lowest_mapped_least :
   forall readmem af tgt mask pf ras root,
   (forall va, sim readmem af tgt mask pf va) ->
   (forall a x, readmem a x <> RdErr OK) ->
@@ -137,44 +141,137 @@ Theorem C08_scan_lowest_mapped_sound_partial :
   (forall l e va a b sh, af_decode af tgt (fieldsz pf) l e va <> DHugeDir a b sh) ->
   (forall l e va va', af_decode af tgt (fieldsz pf) l e va = af_decode af tgt (fieldsz pf) l e va') ->
   (forall j, (j < length (fieldsz pf))%nat -> 1 <= nth j (fieldsz pf) 0) ->
-  forall limit lf addr0 s' r,
+  forall limit lf addr0 st s' r,
   pte_size (pte_format pf) = Some (af_ptesz af) -> addr0 < 2^64 ->
-  lowest_mapped readmem {| m_kind := KPgt ras root mask pf; m_target := tgt |} pf lf addr0 limit = (OK, s', r) ->
-  addr0 / 2^(nth 0 (fieldsz pf) 0) * 2^(nth 0 (fieldsz pf) 0) <= r /\ r <= limit /\ r < 2^64 /\
-  r / 2^(total (fieldsz pf)) = addr0 / 2^(total (fieldsz pf)) /\
-  arch_levels readmem af tgt mask (fieldsz pf) r (length (fieldsz pf) - 1) ras root
-    = (OK, Some (tgt, s_base s')) /\ s_as s' = tgt.
-Proof. exact lowest_mapped_sound. Qed.
-Print Assumptions C08_scan_lowest_mapped_sound_partial.
+  lowest_mapped readmem {| m_kind := KPgt ras root mask pf; m_target := tgt |} pf lf addr0 limit = (st, s', r) ->
+  let start := addr0 / 2^(nth 0 (fieldsz pf) 0) * 2^(nth 0 (fieldsz pf) 0) in
+  let walk a := arch_levels readmem af tgt mask (fieldsz pf) a (length (fieldsz pf) - 1) ras root in
+  (st = OK ->
+     start <= r /\ r <= limit /\ r < 2^64 /\ r / 2^(total (fieldsz pf)) = addr0 / 2^(total (fieldsz pf)) /\
+     s_as s' = tgt /\ walk r = (OK, Some (tgt, s_base s')) /\
+     forall a, start <= a -> a < r -> walk a = (NOTPRESENT, None)) /\
+  (st = NOTPRESENT ->
+     forall a, start <= a -> a <= limit -> a / 2^(total (fieldsz pf)) = addr0 / 2^(total (fieldsz pf)) ->
+               walk a = (NOTPRESENT, None)).
+Proof. exact lowest_mapped_least. Qed.
+Print Assumptions C08_scan_lowest_mapped_least.
 
-Theorem C08_scan_lowest_mapped_sound_x86_64_partial :
-  forall readmem tgt mask pf ras root limit lf addr0 s' r,
+(** all four primitives: [lowest_mapped] the least mapped address of
+    [start, limit], [lowest_unmapped] the least unmapped one, [highest_mapped]
+    the greatest mapped address of [limit, start], and [highest_linear] the end
+    of the last of the consecutive mapped runs whose first address is mapped
+    with the offset asked for ([lin_runs], Sys/ScanProofs.v: from [from] on,
+    take the least mapped address [n]; if it is mapped with offset [off], take
+    the least unmapped address [u] after it, the answer becomes [u - 1], go on
+    from [u]; else, or when nothing more is mapped, the answer stands — "assume
+    that the whole range is linear", only run heads are tested) *)
+Theorem C08_scan_specs :
+  forall readmem af tgt mask pf ras root,
+  (forall va, sim readmem af tgt mask pf va) ->
+  (forall a x, readmem a x <> RdErr OK) ->
+  all_lt64 (fieldsz pf) = true -> total (fieldsz pf) <= 64 -> (2 <= length (fieldsz pf) <= 8)%nat ->
+  (forall l e va a b sh, af_decode af tgt (fieldsz pf) l e va <> DHugeDir a b sh) ->
+  (forall l e va va', af_decode af tgt (fieldsz pf) l e va = af_decode af tgt (fieldsz pf) l e va') ->
+  (forall j, (j < length (fieldsz pf))%nat -> 1 <= nth j (fieldsz pf) 0) ->
+  forall limit kv2kphys off,
+  pte_size (pte_format pf) = Some (af_ptesz af) ->
+  forall lf fuel addr0, addr0 < 2^64 ->
+  let m := {| m_kind := KPgt ras root mask pf; m_target := tgt |} in
+  let lo_start := addr0 / 2^(nth 0 (fieldsz pf) 0) * 2^(nth 0 (fieldsz pf) 0) in
+  let hi_start := lo_start + (2^(nth 0 (fieldsz pf) 0) - 1) in
+  let same_span a := a / 2^(total (fieldsz pf)) = addr0 / 2^(total (fieldsz pf)) in
+  let walk a := arch_levels readmem af tgt mask (fieldsz pf) a (length (fieldsz pf) - 1) ras root in
+  let Mapped a := exists p, walk a = (OK, Some (tgt, p)) in
+  let Unmapped a := walk a = (NOTPRESENT, None) in
+  (forall st s' r, lowest_mapped readmem m pf lf addr0 limit = (st, s', r) ->
+     (st = OK -> lo_start <= r /\ r <= limit /\ r < 2^64 /\ same_span r /\
+                 s_as s' = tgt /\ walk r = (OK, Some (tgt, s_base s')) /\
+                 forall a, lo_start <= a -> a < r -> Unmapped a) /\
+     (st = NOTPRESENT -> forall a, lo_start <= a -> a <= limit -> same_span a -> Unmapped a)) /\
+  (forall st s' r, lowest_unmapped readmem m pf lf addr0 limit = (st, s', r) ->
+     (st = OK -> lo_start <= r /\ r <= limit /\ r < 2^64 /\ same_span r /\ Unmapped r /\
+                 forall a, lo_start <= a -> a < r -> Mapped a) /\
+     (st = NOTPRESENT -> forall a, lo_start <= a -> a <= limit -> same_span a -> Mapped a)) /\
+  (forall st s' r, highest_mapped readmem m pf lf addr0 limit = (st, s', r) ->
+     (st = OK -> limit <= r /\ r <= hi_start /\ same_span r /\
+                 s_as s' = tgt /\ walk r = (OK, Some (tgt, s_base s')) /\
+                 forall a, r < a -> a <= hi_start -> Unmapped a) /\
+     (st = NOTPRESENT -> forall a, limit <= a -> a <= hi_start -> same_span a -> Unmapped a)) /\
+  (forall e, highest_linear readmem m pf kv2kphys fuel lf addr0 limit off = (OK, e) ->
+     lin_runs readmem af tgt mask pf ras root limit kv2kphys off addr0 addr0 NOTPRESENT e).
+Proof. exact scan_specs. Qed.
+Print Assumptions C08_scan_specs.
+
+(** the instance the x86-64 set-up uses: on a tree that maps, in [base, limit],
+    exactly one run [base, top_] of whole pages, an [OK] answer of
+    [highest_linear] is the end of the run, and the first address of the run was
+    found mapped with the offset asked for *)
+Theorem C08_scan_highest_linear_single_run_x86_64 :
+  forall readmem tgt mask pf ras root limit kv2kphys off fuel lf base top_ e,
   pte_format pf = PTE_X86_64 -> x86_64_form (fieldsz pf) ->
-  (forall a x, readmem a x <> RdErr OK) -> addr0 < 2^64 ->
-  lowest_mapped readmem {| m_kind := KPgt ras root mask pf; m_target := tgt |} pf lf addr0 limit = (OK, s', r) ->
-  addr0 / 2^12 * 2^12 <= r /\ r <= limit /\ r < 2^64 /\
-  r / 2^(total (fieldsz pf)) = addr0 / 2^(total (fieldsz pf)) /\
-  arch_levels readmem af_x86_64 tgt mask (fieldsz pf) r (length (fieldsz pf) - 1) ras root
-    = (OK, Some (tgt, s_base s')) /\ s_as s' = tgt.
-Proof. exact x86_64_lowest_mapped_sound. Qed.
-Print Assumptions C08_scan_lowest_mapped_sound_x86_64_partial.
-
-Theorem C08_scan_highest_linear_tests_offset_partial :
-  forall readmem m pf kv fuel lf addr limit off e,
-  highest_linear readmem m pf kv fuel lf addr limit off = (OK, e) ->
-  exists s n p, lowest_mapped readmem m pf lf addr limit = (OK, s, n) /\
-                kv n = (OK, p) /\ wsub p n = off.
-Proof. exact highest_linear_ok. Qed.
-Print Assumptions C08_scan_highest_linear_tests_offset_partial.
+  (forall a x, readmem a x <> RdErr OK) ->
+  base mod 2^12 = 0 -> (top_ + 1) mod 2^12 = 0 ->
+  base <= top_ -> top_ < limit -> limit < 2^64 ->
+  (top_ + 1) / 2^(total (fieldsz pf)) = base / 2^(total (fieldsz pf)) ->
+  let walk a := arch_levels readmem af_x86_64 tgt mask (fieldsz pf) a (length (fieldsz pf) - 1) ras root in
+  (forall a, base <= a -> a <= top_ -> exists p, walk a = (OK, Some (tgt, p))) ->
+  (forall a, top_ < a -> a <= limit -> walk a = (NOTPRESENT, None)) ->
+  highest_linear readmem {| m_kind := KPgt ras root mask pf; m_target := tgt |} pf kv2kphys fuel lf base limit off
+    = (OK, e) ->
+  e = top_ /\ exists p, kv2kphys base = (OK, p) /\ wsub p base = off.
+Proof. exact x86_64_highest_linear_single_run. Qed.
+Print Assumptions C08_scan_highest_linear_single_run_x86_64.
 
 (** * x86-64 Linux set-up decisions ([kv2kphys img s a] is what the page tables
-      of the image, plus machphys -> kphys, say about [a] in state [s])
+      of the image, plus machphys -> kphys, say about [a] in state [s]) *)
 
-    Partial: layout/decision level.  The statements are about the regions and
-    offsets the model of x86_64.c chooses, under the hypothesis that the image
-    is linear where the library looks (the property's "images laid out the way
-    the supported kernels lay out memory"); that the scans find the whole
-    region of such an image is checked on synthesised images, not proved. *)
+(** A canonical image ([canonical_dm], Sys/LinuxX86Region.v): the kernel page
+    table of [s] is an x86-64 one (4- or 5-level) whose reads do not fail with
+    [OK]; in the window [first0, end_] that [linux_directmap_by_pgt] looks at
+    ([dm_window]: the 2.6.0 or 2.6.11 location when the page tables map it to
+    physical 0, else the 2.6.31 / 5-level window) the table tree, walked
+    architecturally, maps exactly one run [base, top_] of whole pages
+    ([base = first0] for the two fixed locations).
+
+    On such an image, whenever the scans answer, they have found the whole run:
+    the region is exactly [base, top_], and [base] was found at physical 0. *)
+Theorem C08_x86_64_linux_finds_region :
+  forall img hl_fuel s ras root mask pf tgt base top_ first last,
+  canonical_dm img s ras root mask pf tgt base top_ ->
+  linux_directmap_by_pgt img hl_fuel s = (OK, (first, last)) ->
+  first = base /\ last = top_ /\
+  exists p, kv2kphys img s base = (OK, p) /\ wsub p base = wsub 0 base.
+Proof. exact directmap_by_pgt_finds. Qed.
+Print Assumptions C08_x86_64_linux_finds_region.
+
+(** ... and when the run is mapped linearly (every address of it that
+    translates has the same virtual-to-physical offset), [linux_directmap]
+    installs exactly the run: MAP_KV_PHYS sends [base, top_] to the direct
+    method, MAP_KPHYS_DIRECT sends [0, top_ - base] to the reverse direct
+    method, the direct method sends every address of the run to the physical
+    address the page tables give it, and the reverse method sends it back *)
+Theorem C08_x86_64_linux_agree :
+  forall img hl_fuel s ras root mask pf tgt base top_ first last,
+  wf_sys s ->
+  canonical_dm img s ras root mask pf tgt base top_ ->
+  (exists off, forall a p, base <= a -> a <= top_ -> kv2kphys img s a = (OK, p) -> wsub p a = off) ->
+  linux_directmap_by_pgt img hl_fuel s = (OK, (first, last)) ->
+  first = base /\ last = top_ /\
+  exists s', linux_directmap img hl_fuel s = (O_ST OK, s') /\
+    get_meth s' METH_DIRECT = mk_linear KPHYSADDR (neg_u64 base) /\
+    get_meth s' METH_RDIRECT = mk_linear KVADDR (- neg_u64 base)%Z /\
+    (forall x, mdenote (get_map s' MAP_KV_PHYS) x =
+               if (base <=? x) && (x <=? top_) then Z.of_nat METH_DIRECT
+               else mdenote (get_map s MAP_KV_PHYS) x) /\
+    (forall x, mdenote (get_map s' MAP_KPHYS_DIRECT) x =
+               if x <=? top_ - base then Z.of_nat METH_RDIRECT else NONE) /\
+    (forall a p, base <= a -> a <= top_ -> p < 2^64 -> kv2kphys img s a = (OK, p) ->
+       lin (neg_u64 base) a = p /\ lin (- neg_u64 base) p = a).
+Proof. exact linux_directmap_agrees. Qed.
+Print Assumptions C08_x86_64_linux_agree.
+
+(** The decision-level statements the above rests on (they do not need the
+    image to be canonical): *)
 
 (** whenever [linux_directmap_by_pgt] finds a region, the offset [-first] was
     seen in the page tables: at [first] itself (fixed old locations), or at the
@@ -245,6 +342,65 @@ Theorem C08_x86_64_linux_ktext_agree_partial : forall koff a p v q,
 Proof. exact ktext_linear_agrees. Qed.
 Print Assumptions C08_x86_64_linux_ktext_agree_partial.
 
+(** * riscv64 and aarch64 Linux set-up decisions (models Sys/LinuxRvA64Model.v,
+      compared with riscv64.c / aarch64.c on every synthesised image)
+
+    Partial: decision level.  What a successful [add_linux_linear_map] has seen
+    in the page tables; the meaning of the scans' answers is C08_scan_specs, the
+    maps [install_linear] sets are C08_linear_directmap_layout_partial. *)
+
+(** riscv64: the region starts at the lowest address the kernel page table maps
+    at or above PAGE_OFFSET, the direct method gets the offset the page table
+    gives that address, the region ends where [highest_linear] with that offset
+    says, the reverse region is the image of the forward one *)
+Theorem C08_riscv64_linux_linear_witness_partial : forall img hl_fuel s s',
+  num_PAGE_OFFSET img <> CbErr OK ->
+  rv_add_linux_linear_map img hl_fuel s = (O_ST OK, s') ->
+  exists po st first last,
+    num_PAGE_OFFSET img = CbOk po /\
+    s_lowest_mapped img s po MAXA = (OK, st, first) /\
+    s_highest_linear img hl_fuel s first MAXA (wsub (s_base st) first) = (OK, last) /\
+    install_linear s first last (wsub (s_base st) first)
+      (wadd first (wsub (s_base st) first)) (wadd last (wsub (s_base st) first)) = (O_ST OK, s').
+Proof. exact rv_linear_map_witness. Qed.
+Print Assumptions C08_riscv64_linux_linear_witness_partial.
+
+(** aarch64: the region is [lowest mapped, highest mapped] in the half of the
+    kernel range that [linux_page_offset] chooses, both ends have the same
+    virtual-to-physical offset, which the direct method gets; the reverse
+    region is [phys(first), phys(last)] *)
+Theorem C08_aarch64_linux_linear_witness_partial : forall img vb s s',
+  a64_add_linux_linear_map img vb s = (O_ST OK, s') ->
+  exists po st first st2 last,
+    a64_linux_page_offset img vb = (OK, po) /\
+    s_lowest_mapped img s po (N.lor po (ADDR_MASK (vb - 1))) = (OK, st, first) /\
+    s_highest_mapped img s (N.lor po (ADDR_MASK (vb - 1))) first = (OK, st2, last) /\
+    wsub (s_base st2) (s_base st) = wsub last first /\
+    install_linear s first last (wsub (s_base st) first) (s_base st) (s_base st2) = (O_ST OK, s').
+Proof. exact a64_linear_map_witness. Qed.
+Print Assumptions C08_aarch64_linux_linear_witness_partial.
+
+(** aarch64's self-check: a direct region is installed only when the lowest and
+    the highest mapped address of the scanned half have the same
+    virtual-to-physical offset.  So for ANY image (canonical or not) whose kernel
+    page table uses an AArch64 descriptor format with one of C02's level layouts:
+    the direct method that [add_linux_linear_map] installs agrees with the
+    architectural walk of the page tables at both ends of its region *)
+Theorem C08_aarch64_linear_map_checked : forall img v s ras root mask pf tgt vb s',
+  pgt_meth s = {| m_kind := KPgt ras root mask pf; m_target := tgt |} ->
+  pte_format pf = a64_fmt v -> a64_form v (fieldsz pf) ->
+  (forall a x, rd img s a x <> RdErr OK) ->
+  wf_sys s -> vb <= 64 ->
+  a64_add_linux_linear_map img vb s = (O_ST OK, s') ->
+  let walk a := arch_levels (rd img s) (af_aarch64 v) tgt mask (fieldsz pf) a (length (fieldsz pf) - 1) ras root in
+  exists first last p1 p2 d,
+    first <= last /\
+    get_meth s' METH_DIRECT = mk_linear KPHYSADDR d /\
+    walk first = (OK, Some (tgt, p1)) /\ walk last = (OK, Some (tgt, p2)) /\
+    lin d first = p1 /\ lin d last = p2.
+Proof. exact aarch64_linear_map_checked. Qed.
+Print Assumptions C08_aarch64_linear_map_checked.
+
 (** the hypotheses are satisfiable: the x86-64 Linux 2.6.31 direct mapping *)
 Example C08_nonvacuous_layout :
   let r := {| r_first := 0xffff880000000000; r_last := 0xffffc7ffffffffff;
@@ -280,11 +436,13 @@ Definition ex_raw (a : aspace) (x : N) : rdres :=
   end.
 Definition ex_img : image :=
   {| i_os := OS_LINUX; i_version := None; i_phys_base := None; i_rootpgt := Some (MACHPHYSADDR, 0x1000);
-     i_virt_bits := Some 48; i_xen_xlat := None;
+     i_virt_bits := Some 48; i_xen_xlat := None; i_page_shift := None;
      sym_init_top_pgt := CbErr NODATA; sym_init_level4_pgt := CbErr NODATA;
      sym_stext := CbOk 0xffffffff81000000; sym_text := CbErr NODATA; sym_page_offset_base := CbErr NODATA;
      reg_cr3 := CbErr NODATA; reg_cr4 := CbErr NODATA; num_sme_mask := CbErr NODATA;
      num_pgtable_l5_enabled := CbErr NODATA;
+     sym_swapper_pg_dir := CbErr NODATA; num_va_kernel_pa_offset := CbErr NODATA; num_PAGE_OFFSET := CbErr NODATA;
+     num_VA_BITS := CbErr NODATA; num_kimage_voffset := CbErr NODATA; num_TCR_EL1_T1SZ := CbErr NODATA;
      caps_kphys := false; caps_machphys := true; caps_kv := false; raw := ex_raw |}.
 
 Example C08_nonvacuous_x86_64_linux :
